@@ -29,7 +29,7 @@ CONTRACTS = {
         'property': ['C15', 'C16'],
         'params': {'length': 'int'},
         'raises': {'ValueError': 'length < 0'},
-        'loops': {0: {'inv': ['D.n == length + 1', 'D.still_a_dag', 'D.nedges_added == _it', 'i == 1 + _it'],
+        'loops': {0: {'inv': ['D.still_a_dag', 'D.nedges_added == _it'],    # loop-constant facts (D.n) persist by themselves
                       'modifies_objects': ['D'], 'modifies_fields': {'D': ['still_a_dag', 'nedges_added']}}},
         'ensures': ['result.n == length + 1', 'result.still_a_dag', 'result.nedges_added == length'],
     },
@@ -38,13 +38,13 @@ CONTRACTS = {
         'params': {'height': 'int'},
         'raises': {'ValueError': 'height < 0'},
         'loops': {
-            0: {'inv': ['2 * D.n == (height + 1) * (height + 2)', 'D.still_a_dag',
+            0: {'inv': ['D.still_a_dag',
                         '1 <= layer', 'layer <= height + 1',
                         '2 * leftsrc == 2 + 2 * (layer - 1) * (height + 1) - (layer - 1) * (layer - 2)',
                         '2 * dest == 2 + 2 * layer * (height + 1) - layer * (layer - 1)',
                         '2 * D.nedges_added == 2 * (layer - 1) * (2 * height + 2 - layer)'],
                 'modifies_objects': ['D'], 'modifies_fields': {'D': ['still_a_dag', 'nedges_added']}},
-            1: {'inv': ['2 * D.n == (height + 1) * (height + 2)', 'D.still_a_dag',
+            1: {'inv': ['D.still_a_dag',
                         '1 <= layer', 'layer <= height',
                         '2 * leftsrc == 2 + 2 * (layer - 1) * (height + 1) - (layer - 1) * (layer - 2) + 2 * _it',
                         '2 * dest == 2 + 2 * layer * (height + 1) - layer * (layer - 1) + 2 * _it',
@@ -58,7 +58,7 @@ CONTRACTS = {
         'property': ['C15', 'C16'],
         'params': {'height': 'int'},
         'raises': {'ValueError': 'height < 0'},
-        'loops': {0: {'inv': ['D.n == N - 1', 'D.still_a_dag', 'N == 2 * pow2(height)',
+        'loops': {0: {'inv': ['D.still_a_dag',
                               'leftsrc == 1 + 2 * _it', 'dest == pow2(height) + 1 + _it', 'D.nedges_added == 2 * _it'],
                       'modifies_objects': ['D'], 'modifies_fields': {'D': ['still_a_dag', 'nedges_added']}}},
         'ensures': ['result.n == 2 * pow2(height) - 1', 'result.still_a_dag', 'result.nedges_added == 2 * pow2(height) - 2'],
@@ -68,11 +68,23 @@ CONTRACTS = {
         'property': ['C03', 'C18'],
         'params': {'N': 'int', 'k': 'int'},
         'requires': ['N >= 0', 'k >= 1'],
-        'loops': {0: {'inv': ['i == 1 + _it']},
-                  1: {'inv': ['d == 1 + _it', 'max_d * (k - 1) <= N - 1', 'k >= 2']},
-                  2: {'inv': ['i == 1 + _it', 'd >= 1', 'd <= max_d', 'max_i == N - d * k + d', 'max_d * (k - 1) <= N - 1', 'k >= 2']}},
-        # every yielded list is an arithmetic progression of length k inside 1..N, with positive difference
-        'yields': ['len(yielded) == k', 'yielded[0] >= 1', 'yielded[k - 1] <= N',
-                   'forall(lambda t: implies(0 <= t and t < k - 1, yielded[t + 1] - yielded[t] == yielded[k - 1] - yielded[k - 2] and yielded[t + 1] > yielded[t]))'],
+        # C03: "exactly the axioms the documentation lists, none missing and none extra": the progressions of length k inside
+        # 1..N are the pairs (start i >= 1, difference d >= 1) with i + d*(k-1) <= N (k >= 2), resp. the numbers 1..N (k == 1).
+        # Shape per yield, identity of the yield (start = iteration number, difference = d), and - at each loop exit - that the
+        # loop made exactly as many iterations as there are valid starts / differences: none missing.
+        # no invariant is needed: loop variables are bound by the loops themselves and everything else is loop-constant; the
+        # t-th iteration of each loop is identified through the loop counters (_it / _itd / _iti), not through program variables
+        'loops': {0: {'inv': [], 'exit_ensures': ['_it == N']},
+                  1: {'inv': [], 'counter': '_itd',
+                      # every difference d >= 1 with 1 + d*(k-1) <= N was used, and no other
+                      'exit_ensures': ['_itd >= 0', '1 + (_itd + 1) * (k - 1) > N', 'implies(_itd >= 1, 1 + _itd * (k - 1) <= N)']},
+                  2: {'inv': [], 'counter': '_iti',
+                      # every start i >= 1 with i + d*(k-1) <= N was used, and no other
+                      'exit_ensures': ['_iti == N - (1 + _itd) * (k - 1)', '_iti >= 1']}},
+        'yields_at': {
+            0: ['len(yielded) == 1', 'yielded[0] == 1 + _it', 'yielded[0] <= N'],
+            1: ['len(yielded) == k', 'yielded[k - 1] <= N',
+                'forall(lambda t: implies(0 <= t and t < k, yielded[t] == (1 + _iti) + (1 + _itd) * t))'],
+        },
     },
 }
